@@ -50,8 +50,9 @@ def replay_one(prop, path):
     d = json.load(open(path))
     sub = [s for s in mod.SUBS if s.name == d['sub']][0]
     ctx = core.Ctx(prop, core.load_known(prop))
+    from .worker import run_case, Stats
     try:
-        sub.check(d['case'], ctx)
+        run_case(sub, d['case'], prop, core.load_known(prop), Stats(), ctx=ctx)
     except core.Violation as v:
         return False, str(v), ctx
     return True, 'ok', ctx
